@@ -109,6 +109,9 @@ impl Check for C06Noise {
     }
     fn check(&self, case: &Case06) -> CaseResult {
         let (clean, noisy) = build_inputs(&case.values, &case.noise);
+        if case.pipeline == 4 && !crate::univ::coherent_for_unique(&clean) {
+            return CaseResult::Discard("--unique over values where jawk's = and hash disagree (outside C10's domain)".into());
+        }
         let mut args = pipeline_args(case.pipeline);
         let base = run(&args, &clean); // default policy = ignore, no noise: the reference
         if !base.res.is_ok() {
